@@ -1158,8 +1158,12 @@ impl<Sink: TokenSink> XmlTokenizer<Sink> {
         let _ = self.run(&input);
 
         loop {
-            if !matches!(self.eof_step(), ProcessResult::Continue) {
-                break;
+            match self.eof_step() {
+                // A tag completed by the end of the input may make the sink ask for a script to
+                // be run. end() has no way to hand that request to the caller, and stopping here
+                // would leave the sink without its EOF token.
+                ProcessResult::Continue | ProcessResult::Script(_) => (),
+                _ => break,
             }
         }
 
